@@ -3,7 +3,16 @@
 Short-circuit conditions are decomposed into branch nodes; `throw e` inside a try block with a
 matching handler is wired to a fresh clone of the handler body (so `throw false` followed by
 `catch (bool r) { cleanup; return r; }` is exactly `cleanup; return false`); loops get a
-dedicated head node carrying the induction variable of canonical counting loops."""
+dedicated head node carrying the induction variable of canonical counting loops.
+
+Calls of *unit-private helpers* (free functions with internal linkage -- static or in an anonymous
+namespace -- that have a body) are expanded in place: the helper's body is built into the caller's
+graph with reference / pointer parameters replaced by the argument expressions and value
+parameters bound as locals; a `return e` of a helper called in a branch condition continues at the
+caller's true / false target (so a block of checks moved into `static bool helper(...)` yields the
+same facts as the block itself), otherwise at the statement after the call.  Depth <= 3, no
+recursion."""
+import copy
 
 
 class Node:
@@ -23,12 +32,47 @@ class Node:
 
 
 class Ctx:
-    __slots__ = ('brk', 'cont', 'handlers')
+    __slots__ = ('brk', 'cont', 'handlers', 'ret')
 
-    def __init__(self, brk=None, cont=None, handlers=()):
+    def __init__(self, brk=None, cont=None, handlers=(), ret=None):
         self.brk = brk
         self.cont = cont
         self.handlers = handlers   # tuple of (handler_list, after_node, outer_ctx), innermost last
+        self.ret = ret             # inside an expanded helper: ('branch', t, f) | ('goto', nxt) | ('assign', lhs, nxt)
+
+
+def strip_casts(e):
+    while isinstance(e, dict) and e.get('k') == 'cast':
+        e = e.get('e')
+    return e
+
+
+def pure_lvalue(e):
+    """an access path without side effects: may be substituted for a reference / pointer parameter"""
+    e = strip_casts(e)
+    if not isinstance(e, dict):
+        return False
+    k = e.get('k')
+    if k in ('var', 'this'):
+        return True
+    if k == 'mem':
+        return pure_lvalue(e.get('o'))
+    if k == 'idx' or (k == 'opcall' and e.get('op') == '[]' and len(e.get('a', [])) == 2):
+        i = strip_casts(e['a'][1])
+        return pure_lvalue(e['a'][0]) and isinstance(i, dict) and i.get('k') in ('var', 'int')
+    if k == 'un' and e.get('op') in ('*', '&'):
+        return pure_lvalue(e['a'][0])
+    return False
+
+
+def subst_tree(x, mapping):
+    if isinstance(x, dict):
+        if x.get('k') == 'var' and x.get('id') in mapping:
+            return copy.deepcopy(mapping[x['id']])
+        return {k: subst_tree(v, mapping) for k, v in x.items()}
+    if isinstance(x, list):
+        return [subst_tree(v, mapping) for v in x]
+    return x
 
 
 def line_of(s):
@@ -49,8 +93,11 @@ def line_of(s):
 
 
 class CFG:
-    def __init__(self, func):
+    def __init__(self, func, prog=None):
         self.func = func
+        self.prog = prog
+        self.inl_stack = [func.get('key')]
+        self.inlined = []     # qualified names of the helpers expanded into this graph
         self.nodes = []
         self.loops = {}   # loophead id -> meta
         self.ret_bool = func.get('ret') == 'bool'
@@ -63,12 +110,69 @@ class CFG:
             n.succ = [entry]
             entry = n
         self.entry = entry
+        if self.ret_bool:
+            self.tail_duplicate()
         self.finish()
 
     def new(self, kind, e=None, line=0, meta=None):
         n = Node(len(self.nodes), kind, e, line, meta)
         self.nodes.append(n)
         return n
+
+    def tail_duplicate(self):
+        """`bool ok = ...; if (ok) ok = check(...); cleanup; return ok;` -- the straight-line tail
+        that leads from a join to `return <variable>` is duplicated per incoming edge, so that each
+        way of reaching the return keeps its own value of the flag (the linear-flag style is then
+        analysed exactly like the early-return and the throw/catch styles).  Bounded: straight-line
+        tails of at most 40 nodes, at most 24 copies per function, three rounds."""
+        copies = 0
+        for _round in range(3):
+            preds = {}
+            seen = set()
+            st = [self.entry]
+            while st:
+                n = st.pop()
+                if n.id in seen:
+                    continue
+                seen.add(n.id)
+                for i, x in enumerate(n.succ):
+                    preds.setdefault(x.id, []).append((n, i))
+                    st.append(x)
+            changed = False
+            for e in [n for n in self.nodes if n.id in seen and n.kind == 'exit' and n.meta.get('kind') == 'return']:
+                v = e.e
+                if not isinstance(v, dict) or v.get('k') in ('bool', 'int'):
+                    continue
+                # walk back through the straight-line tail
+                chain = [e]
+                cur = e
+                while len(preds.get(cur.id, [])) == 1:
+                    p, i = preds[cur.id][0]
+                    if p.kind not in ('stmt', 'nop', 'bind') or len(p.succ) != 1:
+                        break
+                    chain.append(p)
+                    cur = p
+                    if len(chain) > 40:
+                        break
+                ps = preds.get(cur.id, [])
+                if len(ps) < 2 or len(chain) > 40 or copies + len(ps) > 24:
+                    continue
+                if any(p.kind == 'loophead' for p, i in ps):
+                    continue
+                chain.reverse()           # head ... exit
+                for (p, i) in ps[1:]:
+                    nxt = None
+                    clones = []
+                    for n in chain:
+                        c = self.new(n.kind, n.e, n.line, dict(n.meta))
+                        clones.append(c)
+                    for a, b in zip(clones, clones[1:]):
+                        a.succ = [b]
+                    p.succ[i] = clones[0]
+                    copies += 1
+                    changed = True
+            if not changed:
+                break
 
     def finish(self):
         # reachable subgraph, preds, reverse post-order
@@ -96,15 +200,66 @@ class CFG:
         self.exits = [n for n in order if n.kind == 'exit']
 
     # ------------------------------------------------------------------ conditions
-    def branch(self, c, t, f, line=0):
+    def helper(self, e):
+        """the unit-private helper a call expression invokes, if it can be expanded here"""
+        e = strip_casts(e)
+        if self.prog is None or not isinstance(e, dict) or e.get('k') != 'call' or not e.get('fid'):
+            return None
+        g = self.prog.funcs.get(e['fid'])
+        if g is None or not g.get('internal') or not g.get('body') or g.get('va'):
+            return None
+        if g['key'] in self.inl_stack or len(self.inl_stack) > 3:
+            return None
+        if len(e.get('a', [])) != len(g.get('params', [])):
+            return None
+        return g
+
+    def expand(self, call, g, ctx, ret, ln):
+        """build the body of helper g for this call; returns the entry node"""
+        call = strip_casts(call)
+        mapping = {}
+        binds = []
+        for p, a in zip(g['params'], call['a']):
+            t = p['t']
+            byref = '&' in t or t.rstrip().endswith('*') or t.rstrip().endswith('[]')
+            if byref and pure_lvalue(a):
+                mapping[p['id']] = strip_casts(a) if '&' in t else a
+            else:
+                binds.append({'k': 'vardecl', 'v': {'n': p['n'], 'id': p['id'], 't': t, 'init': a}})
+        body = subst_tree(g['body'], mapping) if mapping else g['body']
+        self.inl_stack.append(g['key'])
+        self.inlined.append(g['q'])
+        try:
+            # falling off the end of the helper continues like `return;`
+            if ret[0] == 'branch':
+                end = ret[2]
+            else:
+                end = ret[-1]
+            entry = self.build(body, end, Ctx(None, None, ctx.handlers, ret))
+        finally:
+            self.inl_stack.pop()
+        for b in reversed(binds):
+            n = self.new('stmt', b, ln, {'inl': g['q']})
+            n.succ = [entry]
+            entry = n
+        return entry
+
+    def branch(self, c, t, f, line=0, ctx=None):
         if isinstance(c, dict):
             k = c.get('k')
             if k == 'bin' and c['op'] == '||':
-                return self.branch(c['a'][0], t, self.branch(c['a'][1], t, f, line), line)
+                return self.branch(c['a'][0], t, self.branch(c['a'][1], t, f, line, ctx), line, ctx)
             if k == 'bin' and c['op'] == '&&':
-                return self.branch(c['a'][0], self.branch(c['a'][1], t, f, line), f, line)
+                return self.branch(c['a'][0], self.branch(c['a'][1], t, f, line, ctx), f, line, ctx)
             if k == 'un' and c['op'] == '!':
-                return self.branch(c['a'][0], f, t, line)
+                return self.branch(c['a'][0], f, t, line, ctx)
+            if k == 'cast' and c.get('t') in ('bool', 'const bool'):
+                inner = strip_casts(c)
+                if self.helper(inner) is not None:
+                    return self.branch(inner, t, f, line, ctx)
+            g = self.helper(c)
+            if g is not None and ctx is not None and g.get('ret') in ('bool', 'const bool'):
+                return self.expand(c, g, ctx, ('branch', t, f), line)
             if k == 'bool':
                 return t if c['v'] else f
             if k == 'int' and not c.get('n'):
@@ -131,7 +286,7 @@ class CFG:
         if k == 'if':
             t = self.build(s['t'], nxt, ctx)
             f = self.build(s['e'], nxt, ctx) if s.get('e') else nxt
-            b = self.branch(s['c'], t, f, ln)
+            b = self.branch(s['c'], t, f, ln, ctx)
             if s.get('cv'):
                 b = self.build(s['cv'], b, ctx)
             if s.get('init'):
@@ -142,7 +297,7 @@ class CFG:
         if k == 'switch':
             sw = self.new('switch', s['c'], ln, {'cases': []})
             cases = []
-            c2 = Ctx(nxt, ctx.cont, ctx.handlers)
+            c2 = Ctx(nxt, ctx.cont, ctx.handlers, ctx.ret)
             self._sw_stack = getattr(self, '_sw_stack', [])
             self._sw_stack.append(cases)
             self.build(s['b'], nxt, c2)
@@ -170,21 +325,51 @@ class CFG:
             return ctx.brk if ctx.brk is not None else nxt
         if k == 'continue':
             return ctx.cont if ctx.cont is not None else nxt
+        if k == 'return' and ctx.ret is not None:
+            e = s.get('e')
+            r = ctx.ret
+            if r[0] == 'branch':
+                if e is None:
+                    return r[2]
+                return self.branch(e, r[1], r[2], ln, ctx)
+            if r[0] == 'assign' and e is not None:
+                n = self.new('stmt', {'k': 'bin', 'op': '=', 'a': [r[1], e], 'l': ln}, ln)
+                n.succ = [r[2]]
+                return n
+            if e is not None:
+                n = self.new('stmt', e, ln)
+                n.succ = [r[-1]]
+                return n
+            return r[-1]
         if k == 'return':
             e = s.get('e')
+            if e is not None and self.ret_bool and self.helper(e) is not None and self.helper(e).get('ret') in ('bool', 'const bool'):
+                t = self.new('exit', {'k': 'bool', 'v': True}, ln, {'kind': 'return'})
+                f = self.new('exit', {'k': 'bool', 'v': False}, ln, {'kind': 'return'})
+                return self.branch(e, t, f, ln, ctx)
             if e is not None and self.ret_bool and isinstance(e, dict) and (
                     (e.get('k') == 'bin' and e['op'] in ('&&', '||')) or (e.get('k') == 'un' and e['op'] == '!')):
                 t = self.new('exit', {'k': 'bool', 'v': True}, ln, {'kind': 'return'})
                 f = self.new('exit', {'k': 'bool', 'v': False}, ln, {'kind': 'return'})
-                return self.branch(e, t, f, ln)
+                return self.branch(e, t, f, ln, ctx)
             return self.new('exit', e, ln, {'kind': 'return'})
         if k == 'throw':
             return self.throw(s, ctx, ln)
         if k == 'try':
-            c2 = Ctx(ctx.brk, ctx.cont, ctx.handlers + ((s['h'], nxt, ctx),))
+            c2 = Ctx(ctx.brk, ctx.cont, ctx.handlers + ((s['h'], nxt, ctx),), ctx.ret)
             return self.build(s['b'], nxt, c2)
         if k == 'decl':
             for v in reversed(s['v']):
+                g = self.helper(v.get('init')) if v.get('init') is not None else None
+                if g is not None:
+                    # T x = helper(...): declare x, then expand the helper with `return e` -> x = e
+                    lhs = {'k': 'var', 'n': v['n'], 'id': v['id'], 't': v['t']}
+                    nxt = self.expand(v['init'], g, ctx, ('assign', lhs, nxt), ln)
+                    v2 = {kk: vv for kk, vv in v.items() if kk != 'init'}
+                    n = self.new('stmt', {'k': 'vardecl', 'v': v2}, ln)
+                    n.succ = [nxt]
+                    nxt = n
+                    continue
                 n = self.new('stmt', {'k': 'vardecl', 'v': v}, ln)
                 n.succ = [nxt]
                 nxt = n
@@ -197,7 +382,15 @@ class CFG:
                 k == 'cond' and isinstance(s['a'][2], dict) and s['a'][2].get('k') == 'throw':
             t = self.build(s['a'][1], nxt, ctx)
             f = self.build(s['a'][2], nxt, ctx)
-            return self.branch(s['a'][0], t, f, ln)
+            return self.branch(s['a'][0], t, f, ln, ctx)
+        # a helper called for its effects, or whose verdict is stored in a variable
+        g = self.helper(s)
+        if g is not None:
+            return self.expand(s, g, ctx, ('goto', nxt), ln)
+        if k == 'bin' and s.get('op') == '=' and pure_lvalue(s['a'][0]):
+            g = self.helper(s['a'][1])
+            if g is not None:
+                return self.expand(s['a'][1], g, ctx, ('assign', s['a'][0], nxt), ln)
         # plain expression statement (or unknown statement)
         n = self.new('stmt', s, ln)
         n.succ = [nxt]
@@ -224,25 +417,28 @@ class CFG:
         meta = {'kind': k, 'line': ln, 'iv': None}
         self.loops[head.id] = meta
         if k == 'while':
-            body = self.build(s['b'], head, Ctx(nxt, head, ctx.handlers))
-            head.succ = [self.branch(s['c'], body, nxt, ln)]
+            body = self.build(s['b'], head, Ctx(nxt, head, ctx.handlers, ctx.ret))
+            head.succ = [self.branch(s['c'], body, nxt, ln, ctx)]
             meta['cond'] = s['c']
             return head
         if k == 'do':
             condentry_holder = self.new('nop', None, ln)
-            body = self.build(s['b'], condentry_holder, Ctx(nxt, condentry_holder, ctx.handlers))
-            condentry_holder.succ = [self.branch(s['c'], head, nxt, ln)]
+            body = self.build(s['b'], condentry_holder, Ctx(nxt, condentry_holder, ctx.handlers, ctx.ret))
+            condentry_holder.succ = [self.branch(s['c'], head, nxt, ln, ctx)]
             head.succ = [body]
             meta['cond'] = s['c']
             return head
         if k == 'for':
+            ds = desugar_iterator_loop(s)
+            if ds is not None:
+                s = ds
             incn = head
             if s.get('n') is not None:
                 incn = self.build(s['n'], head, ctx)
                 for nn in self._chain(incn, head):
                     nn.meta['loopinc'] = head.id
-            body = self.build(s['b'], incn, Ctx(nxt, incn, ctx.handlers))
-            head.succ = [self.branch(s.get('c'), body, nxt, ln)]
+            body = self.build(s['b'], incn, Ctx(nxt, incn, ctx.handlers, ctx.ret))
+            head.succ = [self.branch(s.get('c'), body, nxt, ln, ctx)]
             meta['cond'] = s.get('c')
             meta['iv'] = canonical_iv(s)
             meta['body'] = s['b']
@@ -250,7 +446,7 @@ class CFG:
             return entry
         if k == 'forrange':
             bindn = self.new('stmt', {'k': 'rangebind', 'v': s['v'], 'r': s['r']}, ln)
-            body = self.build(s['b'], head, Ctx(nxt, head, ctx.handlers))
+            body = self.build(s['b'], head, Ctx(nxt, head, ctx.handlers, ctx.ret))
             bindn.succ = [body]
             br = self.new('branch', {'k': 'rangemore', 'r': s['r'], 'l': ln}, ln)
             br.succ = [bindn, nxt]
@@ -263,6 +459,76 @@ class CFG:
             out.append(a)
             a = a.succ[0]
         return out
+
+
+def _same_expr(a, b):
+    """structural equality of two expression trees, ignoring source positions"""
+    if isinstance(a, dict) and isinstance(b, dict):
+        ka = {k: v for k, v in a.items() if k != 'l'}
+        kb = {k: v for k, v in b.items() if k != 'l'}
+        return ka.keys() == kb.keys() and all(_same_expr(ka[k], kb[k]) for k in ka)
+    if isinstance(a, list) and isinstance(b, list):
+        return len(a) == len(b) and all(_same_expr(x, y) for x, y in zip(a, b))
+    return a == b
+
+
+def desugar_iterator_loop(s):
+    """for (It it = X.begin(); it != X.end(); ++it) { ... *it ... }  is read as
+    for (size_t it = 0; it < X.size(); it++) { ... X[it] ... }  when the iterator is only ever
+    dereferenced in the body -- the same loop over the same elements, in the form every rule
+    already understands (canonical counter, element access)."""
+    init, cond, inc, body = s.get('i'), s.get('c'), s.get('n'), s.get('b')
+    if not (isinstance(init, dict) and init.get('k') == 'decl' and len(init.get('v', [])) == 1 and cond and inc and body is not None):
+        return None
+    v = init['v'][0]
+    b = strip_casts(v.get('init'))
+    while isinstance(b, dict) and b.get('k') == 'ctor' and len(b.get('a', [])) == 1:
+        b = strip_casts(b['a'][0])       # iterator -> const_iterator conversion
+    if not (isinstance(b, dict) and b.get('k') == 'mcall' and b.get('f', '').split('::')[-1] in ('begin', 'cbegin') and not b.get('a') and pure_lvalue(b.get('o'))):
+        return None
+    cont = b['o']
+    c = strip_casts(cond)
+    if not (isinstance(c, dict) and c.get('k') in ('opcall', 'bin') and c.get('op') in ('!=', '<') and len(c.get('a', [])) == 2):
+        return None
+    lhs, rhs = strip_casts(c['a'][0]), strip_casts(c['a'][1])
+    while isinstance(rhs, dict) and rhs.get('k') == 'ctor' and len(rhs.get('a', [])) == 1:
+        rhs = strip_casts(rhs['a'][0])
+    if not (isinstance(lhs, dict) and lhs.get('k') == 'var' and lhs.get('id') == v['id']):
+        return None
+    if not (isinstance(rhs, dict) and rhs.get('k') == 'mcall' and rhs.get('f', '').split('::')[-1] in ('end', 'cend') and _same_expr(rhs.get('o'), cont)):
+        return None
+    i2 = strip_casts(inc)
+    if not (isinstance(i2, dict) and i2.get('k') in ('opcall', 'un') and i2.get('op') in ('++', 'post++') and
+            strip_casts(i2['a'][0]).get('k') == 'var' and strip_casts(i2['a'][0]).get('id') == v['id']):
+        return None
+    cls = b['f'].rsplit('::', 1)[0]
+    ok = [True]
+
+    def rew(x, deref_parent=False):
+        if isinstance(x, dict):
+            if x.get('k') in ('opcall', 'un') and x.get('op') == '*' and len(x.get('a', [])) == 1:
+                a0 = strip_casts(x['a'][0])
+                if isinstance(a0, dict) and a0.get('k') == 'var' and a0.get('id') == v['id']:
+                    return {'k': 'opcall', 'op': '[]', 'f': cls + '::operator[]',
+                            'a': [copy.deepcopy(cont), {'k': 'var', 'n': v['n'], 'id': v['id'], 't': 'unsigned long'}],
+                            't': x.get('t'), 'l': x.get('l', 0)}
+            if x.get('k') == 'var' and x.get('id') == v['id']:
+                ok[0] = False        # the iterator escapes (compared, copied, advanced): keep the loop as it is
+                return x
+            return {k: rew(val) for k, val in x.items()}
+        if isinstance(x, list):
+            return [rew(val) for val in x]
+        return x
+    body2 = rew(body)
+    if not ok[0]:
+        return None
+    ivar = {'k': 'var', 'n': v['n'], 'id': v['id'], 't': 'unsigned long'}
+    size = {'k': 'mcall', 'f': cls + '::size', 'o': copy.deepcopy(cont), 'a': [], 'fid': cls + '::size()const', 't': 'unsigned long', 'l': s.get('l', 0)}
+    return {'k': 'for', 'l': s.get('l', 0),
+            'i': {'k': 'decl', 'l': init.get('l', 0), 'v': [{'n': v['n'], 'id': v['id'], 't': 'unsigned long', 'init': {'k': 'int', 'v': 0, 't': 'int'}}]},
+            'c': {'k': 'bin', 'op': '<', 'a': [ivar, size], 't': 'bool', 'l': s.get('l', 0)},
+            'n': {'k': 'un', 'op': 'post++', 'a': [dict(ivar)], 't': 'unsigned long', 'l': s.get('l', 0)},
+            'b': body2}
 
 
 def _var_id(e):
